@@ -3087,9 +3087,10 @@ class PlateSlicer(Slicer):
         Returns: New Plate with requested substances removed.
 
         """
-        self.plate = deepcopy(self.plate)
-        self.apply(lambda elem: elem.remove(what))
-        return self.plate
+        new_slice = copy(self)
+        new_slice.plate = deepcopy(self.plate)
+        new_slice.apply(lambda elem: elem.remove(what))
+        return new_slice.plate
 
     def fill_to(self, solvent: Substance, quantity: str):
         """
@@ -3102,7 +3103,8 @@ class PlateSlicer(Slicer):
         Returns: New Plate with desired final `quantity` in each well.
 
         """
-        self.plate = deepcopy(self.plate)
-        self.apply(lambda elem: elem.fill_to(solvent, quantity))
+        new_slice = copy(self)
+        new_slice.plate = deepcopy(self.plate)
+        new_slice.apply(lambda elem: elem.fill_to(solvent, quantity))
 
-        return self.plate
+        return new_slice.plate
